@@ -350,17 +350,27 @@ func (c *simCtx) regionOf(v ssa.Value) (float64, float64, bool) {
 		return lo, hi, true
 	case *ssa.BinOp:
 		if x.Op == token.ADD || x.Op == token.SUB {
+			// arithmetic in an unsigned type wraps below zero: uint64(z)-1 <= 30 rejects z = 0
+			wrap := func(lo, hi float64) (float64, float64, bool) {
+				if bt, isB := x.Type().Underlying().(*types.Basic); isB && bt.Info()&types.IsUnsigned != 0 && lo < 0 {
+					if hi < 0 {
+						return math.Pow(2, 63), math.Pow(2, 64), true
+					}
+					return 0, 0, false
+				}
+				return lo, hi, true
+			}
 			if k, isK := c.constUnder(x.Y); isK {
 				if lo, hi, ok := c.regionOf(x.X); ok {
 					if x.Op == token.SUB {
 						k = -k
 					}
-					return lo + k, hi + k, true
+					return wrap(lo+k, hi+k)
 				}
 			}
 			if k, isK := c.constUnder(x.X); isK && x.Op == token.ADD {
 				if lo, hi, ok := c.regionOf(x.Y); ok {
-					return lo + k, hi + k, true
+					return wrap(lo+k, hi+k)
 				}
 			}
 		}
@@ -935,7 +945,40 @@ func neverReturnsError(w *World, ev ssa.Value) bool {
 
 // intConstOf: an integer constant, or an integer parameter whose value is a
 // constant at the call site of this activation.
+// intConstOf folds v to one integer; a value that does not fit the (unsigned or
+// narrow) type it is computed in is not folded: it wraps at run time.
 func (c *simCtx) intConstOf(v ssa.Value) (int64, bool) {
+	k, ok := c.intConstRaw(v)
+	if !ok {
+		return 0, false
+	}
+	if b, isB := v.Type().Underlying().(*types.Basic); isB && b.Info()&types.IsInteger != 0 {
+		unsigned := b.Info()&types.IsUnsigned != 0
+		bits := 64
+		switch b.Kind() {
+		case types.Int8, types.Uint8:
+			bits = 8
+		case types.Int16, types.Uint16:
+			bits = 16
+		case types.Int32, types.Uint32:
+			bits = 32
+		}
+		if unsigned && k < 0 {
+			return 0, false
+		}
+		if bits < 64 {
+			if unsigned && k >= int64(1)<<uint(bits) {
+				return 0, false
+			}
+			if !unsigned && (k >= int64(1)<<uint(bits-1) || k < -(int64(1)<<uint(bits-1))) {
+				return 0, false
+			}
+		}
+	}
+	return k, true
+}
+
+func (c *simCtx) intConstRaw(v ssa.Value) (int64, bool) {
 	if k, ok := constInt(v); ok {
 		return k, true
 	}
@@ -1480,6 +1523,11 @@ func (c *simCtx) explore(start *ssa.BasicBlock, stop map[*ssa.BasicBlock]bool) m
 				emptyLoops[sr.Header] = sr.Body
 			}
 		}
+		if c.sc.Param < len(c.f.Params) {
+			for _, rl := range rotatedLoopsOver(c.f, c.f.Params[c.sc.Param]) {
+				emptyLoops[rl.Guard] = rl.Body
+			}
+		}
 	}
 	if c.sc.NonEmptyFn != nil {
 		for _, sr := range findSliceRanges(c.f) {
@@ -1499,6 +1547,9 @@ func (c *simCtx) explore(start *ssa.BasicBlock, stop map[*ssa.BasicBlock]bool) m
 				for hdr, done := range countedLoopsOver(c.f, ex) {
 					blocked[hdr] = done
 				}
+				for _, rl := range rotatedLoopsOver(c.f, ex) {
+					blocked[rl.Guard] = rl.Done
+				}
 			}
 		})
 	}
@@ -1506,6 +1557,9 @@ func (c *simCtx) explore(start *ssa.BasicBlock, stop map[*ssa.BasicBlock]bool) m
 		// counted loops over the non-empty list: for i := 0; i < len(list); i++
 		for hdr, done := range countedLoopsOver(c.f, c.f.Params[c.sc.NonEmpty-1]) {
 			blocked[hdr] = done
+		}
+		for _, rl := range rotatedLoopsOver(c.f, c.f.Params[c.sc.NonEmpty-1]) {
+			blocked[rl.Guard] = rl.Done
 		}
 		for _, sr := range findSliceRanges(c.f) {
 			if resolve(sr.X) == ssa.Value(c.f.Params[c.sc.NonEmpty-1]) {
@@ -2293,6 +2347,68 @@ func countedLoopsOver(f *ssa.Function, list ssa.Value) map[*ssa.BasicBlock]*ssa.
 		}
 		if zero && unit {
 			out[blk] = fl
+		}
+	}
+	return out
+}
+
+// rotatedLoop: the form go/ssa gives `for i := range len(list)` (and range n):
+// a guard `0 < n` in front, the counter phi at the top of the body, the
+// increment and the test `i+1 < n` in the latch.
+type rotatedLoop struct {
+	Guard, Body, Latch, Done *ssa.BasicBlock
+	Phi                      *ssa.Phi
+}
+
+func rotatedLoopsOver(f *ssa.Function, list ssa.Value) []rotatedLoop {
+	var out []rotatedLoop
+	isLen := func(v ssa.Value) bool {
+		lc, ok := resolve(v).(*ssa.Call)
+		return ok && builtinName(lc) == "len" && resolve(lc.Call.Args[0]) == resolve(list)
+	}
+	for _, body := range f.Blocks {
+		for _, in := range body.Instrs {
+			phi, ok := in.(*ssa.Phi)
+			if !ok {
+				break
+			}
+			if len(phi.Edges) != 2 || len(body.Preds) != 2 || !isIntType(phi.Type()) {
+				continue
+			}
+			var guard, latch *ssa.BasicBlock
+			for i, e := range phi.Edges {
+				pred := body.Preds[i]
+				if k, isK := constInt(e); isK && k == 0 && !body.Dominates(pred) {
+					guard = pred
+					continue
+				}
+				inc, ok := resolve(e).(*ssa.BinOp)
+				if ok && inc.Op == token.ADD && stripConv(inc.X) == ssa.Value(phi) {
+					if k, isK := constInt(inc.Y); isK && k == 1 && body.Dominates(pred) {
+						t, _, ifi := ifSuccs(pred)
+						if ifi != nil && t == body {
+							if c, isC := ifi.Cond.(*ssa.BinOp); isC && c.Op == token.LSS && resolve(c.X) == ssa.Value(inc) && isLen(c.Y) {
+								latch = pred
+							}
+						}
+					}
+				}
+			}
+			if guard == nil || latch == nil {
+				continue
+			}
+			t, fl, ifi := ifSuccs(guard)
+			if ifi == nil || t != body {
+				continue
+			}
+			c, isC := ifi.Cond.(*ssa.BinOp)
+			if !isC || c.Op != token.LSS || !isLen(c.Y) {
+				continue
+			}
+			if k, isK := constInt(c.X); !isK || k != 0 {
+				continue
+			}
+			out = append(out, rotatedLoop{Guard: guard, Body: body, Latch: latch, Done: fl, Phi: phi})
 		}
 	}
 	return out
